@@ -150,6 +150,19 @@ class CharStream:
         return "%s(%s)@%d" % ("char_indices" if self.indices else "chars", fmt(self.src), self.pos)
 
 
+class SplitStream:
+    """`s.split(sep)` / `s.splitn(n, sep)` of a symbolic string as a positional stream: segment k is the term seg(src, sep, k), it exists
+    iff hasseg(src, sep, k) (monotone; segment 0 always exists).  With a limit n, element n-1 is rest(src, sep, n-1) — everything after
+    the (n-1)th separator — and exists iff hasseg(src, sep, n-1)."""
+    __slots__ = ("src", "sep", "pos", "limit")
+
+    def __init__(self, src, sep, pos=0, limit=None):
+        self.src, self.sep, self.pos, self.limit = src, sep, pos, limit
+
+    def __repr__(self):
+        return "split(%s, %r)@%d" % (fmt(self.src), self.sep, self.pos)
+
+
 class LIter(list):
     """The iterator obtained from a concrete list (`v.iter()`, `v.into_iter()`) in concrete_vec mode: a list (so that every adapter and
     terminal defined on lists applies) that `next()` consumes — the vector it came from is not touched."""
@@ -201,6 +214,8 @@ def term(v):
         return ("list",) + tuple(term(x) for x in v)
     if isinstance(v, CharStream):
         return ("stream", v.src, v.pos)
+    if isinstance(v, SplitStream):
+        return ("splitstream", v.src, ("lit", v.sep), v.pos)
     if isinstance(v, MapV):
         return ("map",) + tuple(("tuple", term(k), term(x)) for k, x in v.items)
     if isinstance(v, Iter):
@@ -1431,6 +1446,37 @@ class Evaluator:
             r = self.stream_builtin(name, a0, args, depth, node)
             if r is not NotImplemented:
                 return r
+        if getattr(self, "split_streams", False) and isinstance(a0, Sym) and "str" in base:
+            sep_ = lambda x: chr(int(x)) if isinstance(x, Ch) else (x if isinstance(x, str) and not isinstance(x, Sym) else None)  # noqa: E731
+            if name == "split" and len(args) == 2 and sep_(args[1]) is not None:
+                return SplitStream(a0.t, sep_(args[1]))
+            if name == "splitn" and len(args) == 3 and isinstance(args[1], int) and not isinstance(args[1], bool) and sep_(args[2]) is not None and args[1] >= 1:
+                return SplitStream(a0.t, sep_(args[2]), 0, args[1])
+            if name == "split_once" and len(args) == 2 and sep_(args[1]) is not None:
+                st_ = SplitStream(a0.t, sep_(args[1]), 0, 2)
+                if self.split_has(st_, 1):
+                    return V("Some", ((self.split_elem(st_, 0), self.split_elem(st_, 1)),))
+                return V("None")
+        if isinstance(a0, SplitStream):
+            st_ = a0
+            if name == "next" and len(args) == 1:
+                if self.split_has(st_, st_.pos):
+                    x_ = self.split_elem(st_, st_.pos)
+                    st_.pos += 1
+                    return V("Some", (x_,))
+                return V("None")
+            if name == "nth" and len(args) == 2 and isinstance(args[1], int) and not isinstance(args[1], bool):
+                k_ = st_.pos + args[1]
+                if self.split_has(st_, k_):
+                    st_.pos = k_ + 1
+                    return V("Some", (self.split_elem(st_, k_),))
+                st_.pos = k_ + 1
+                return V("None")
+            if name in ("by_ref", "into_iter", "iter", "fuse", "peekable"):
+                return st_
+            if name == "clone":
+                return SplitStream(st_.src, st_.sep, st_.pos, st_.limit)
+            raise Abort("SplitStream::%s" % name)
         if isinstance(a0, list) and name in ("try_from", "try_into") and "convert::Try" in base and node is not None and node.get("targs_full"):
             # Vec<T>/slice → [T; N]: succeeds exactly when the length is N (the Vec is handed back otherwise)
             for t_ in node["targs_full"]:
@@ -1985,6 +2031,27 @@ class Evaluator:
                 if (not c) and a[2] <= k:
                     return False
         return self.path.decide(("has", st.src, k), [True, False])
+
+    def split_has(self, st, k):
+        if k == 0:
+            return True
+        if st.limit is not None and k >= st.limit:
+            return False
+        if k > getattr(self, "max_stream_len", 8):
+            raise Abort("split stream bound")
+        for (a, c) in list(self.path.val.items()):
+            if a[0] == "hasseg" and a[1] == st.src and a[2] == ("lit", st.sep):
+                if c and a[3] >= k:
+                    return True
+                if (not c) and a[3] <= k:
+                    return False
+        return self.path.decide(("hasseg", st.src, ("lit", st.sep), k), [True, False])
+
+    def split_elem(self, st, k):
+        kind = "rest" if st.limit is not None and k == st.limit - 1 else "seg"
+        x = Sym((kind, st.src, ("lit", st.sep), k))
+        self.types.setdefault(x.t, "str")
+        return x
 
     def stream_elem(self, st, k):
         x = Sym(("at", st.src, k))
